@@ -469,11 +469,19 @@ def r4_low_link_discipline(ctx, rep, R='C20.R4'):
                 for t in n.targets:
                     if isinstance(t, ast.Attribute) and is_name(t.value, 'self') and t.attr in ('low', 'dfs'):
                         vals[t.attr] = n.value
-        ok_init = set(vals) == {'low', 'dfs'} and (vals['low'] is vals['dfs'] or
+        # both from one single-assignment local (``order = next(counter)``) is the same value
+        from .common import local_assignments
+        la = local_assignments(init.node)
+        same_local = set(vals) == {'low', 'dfs'} and isinstance(vals['low'], ast.Name) and \
+            isinstance(vals['dfs'], ast.Name) and vals['low'].id == vals['dfs'].id and \
+            len(la.get(vals['low'].id, [])) == 1 and isinstance(la[vals['low'].id][0], ast.AST)
+        ok_init = set(vals) == {'low', 'dfs'} and (vals['low'] is vals['dfs'] or same_local or
                                                   norm(vals['low']) in ('self.dfs',) or
                                                   norm(vals['dfs']) in ('self.low',))
         if ok_init:
             src = vals['dfs'] if norm(vals['dfs']) != 'self.low' else vals['low']
+            if same_local:
+                src = la[vals['low'].id][0]
             ok_init = isinstance(src, ast.Call) and is_name(src.func, 'next') and len(src.args) == 1
         why = 'low/dfs initialised from %s' % {k: norm(v) for k, v in vals.items()}
     rep.check(ok_init, R, '%s.__init__: dfs = low = next(<counter>)' % C,
@@ -1164,7 +1172,7 @@ def r7_edges_only_added(ctx, rep, R='C20.R7'):
             what = None
             if isinstance(st, ast.Assign):
                 for t in st.targets:
-                    if is_map(t) and fi.name != '__init__':
+                    if dotted(t) == 'self._neighbors' and fi.name != '__init__':
                         what = 'the neighbour map is re-bound'
                     if isinstance(t, ast.Subscript) and is_map(t.value):
                         # the key must be known to be absent here
@@ -1197,6 +1205,19 @@ def r7_edges_only_added(ctx, rep, R='C20.R7'):
                                     is_map(ee.comparators[0]):
                                 if (isinstance(ee.ops[0], ast.NotIn) and pos) or (isinstance(ee.ops[0], ast.In) and not pos):
                                     absent = True
+                        # try: map[k] ... except KeyError: map[k] = v
+                        h = st
+                        while getattr(h, '_parent', None) is not None and not isinstance(h, ast.ExceptHandler):
+                            h = h._parent
+                            if isinstance(h, (ast.FunctionDef, ast.For, ast.While)):
+                                break
+                        if isinstance(h, ast.ExceptHandler) and dotted(h.type) == 'KeyError' and \
+                                isinstance(getattr(h, '_parent', None), ast.Try):
+                            for x in h._parent.body:
+                                for y in ast.walk(x):
+                                    if isinstance(y, ast.Subscript) and isinstance(y.ctx, ast.Load) and \
+                                            is_map(y.value) and norm(y.slice) == key:
+                                        absent = True
                         n += 1
                         if not absent and fi.name != '__init__':
                             what = 'the entry of %s is assigned although the node may already have neighbours' % key
